@@ -45,7 +45,12 @@ pub mod state {
     pub uninterp spec fn mount_result(force: bool) -> Result<(), FlexiLoggerError>;
     pub uninterp spec fn mount_ok(force: bool) -> bool;
     pub uninterp spec fn shutdown_ok() -> bool;
+    pub struct LogfileSelector { _o: () }
+    /// oracle: the State's listing for a selector (unit `state`: State::existing_log_files.post)
+    pub uninterp spec fn state_elf(selector: &LogfileSelector) -> Seq<std::path::PathBuf>;
     impl State {
+        #[verifier::external_body]
+        pub(crate) fn existing_log_files(&self, selector: &LogfileSelector) -> (r: Vec<std::path::PathBuf>) ensures r@ == state_elf(selector) { unimplemented!() }
         #[verifier::external_body]
         pub fn config(&self) -> (r: &FileLogWriterConfig) ensures *r == self.cfg { unimplemented!() }
         #[verifier::external_body]
@@ -98,6 +103,7 @@ pub mod state_handle {
     use super::state::*;
     use super::builder::*;
     use std::sync::{Arc, Mutex};
+    use std::path::PathBuf;
     type FormatFunction = VFormatFn;
     broadcast use ax_same_val;
 
@@ -119,6 +125,11 @@ pub mod state_handle {
     //@   ens[plain_write.post.ok] r is Ok ==> write_buffer_result(buffer@) is Ok && r->Ok_0 == buffer@.len()
     //@   ens[plain_write.post.handed_over] !self.poisoned() ==> (r is Ok <==> write_buffer_result(buffer@) is Ok)
     //@   canary
+    //@ fn src/writers/file_log_writer/state_handle.rs impl StateHandle / fn existing_log_files
+    //@   ret r
+    //@   props C16
+    //@   rule R3 *
+    //@   ens[StateHandle::existing_log_files.post] (r is Ok) == !self.poisoned() && (r is Ok ==> r->Ok_0@ == state_elf(selector))
     //@ fn src/writers/file_log_writer/state_handle.rs impl StateHandle / fn flush
     //@   ret r
     //@   props C04
